@@ -42,7 +42,7 @@ ASSUMPTIONS = ['numdifftools Hessians (SDevice, TDevice) are compared hess(s,p) 
 
 LEAF_CLASSES = lg.CLASSES
 PRICE_KINDS = ['scalar', 'vector', 'matrix']
-SIGNS = ['pos', 'neg', 'mixed']
+SIGNS = ['pos', 'neg', 'mixed', 'zerosum']
 
 
 def gen_price(rng, R, n, kind, sign):
@@ -52,6 +52,22 @@ def gen_price(rng, R, n, kind, sign):
     if sign == 'neg':
       return dy(rng, -3, F(-1, 4), 2)
     return dy(rng, -2, 3, 2)
+  if sign == 'zerosum':
+    # mixed-sign prices whose entries cancel EXACTLY (per row): a price that sums to zero is not a zero price
+    def row():
+      v = [dy(rng, F(1, 4), 3, 2) * (1 if j % 2 == 0 else -1) for j in range(n)]
+      if n >= 2:
+        v[-1] = -sum(v[:-1])
+        if v[-1] == 0:
+          v[0] += F(1, 2); v[-1] -= F(1, 2)
+      return v
+    if kind == 'scalar' or n < 2:
+      kind = 'vector' if n >= 2 else kind
+    if kind == 'vector':
+      return ('vector', row())
+    if kind == 'matrix':
+      return ('matrix', [row() for _ in range(R)])
+    sign = 'mixed'
   if kind == 'scalar':
     return ('scalar', one())
   if kind == 'vector':
@@ -78,7 +94,7 @@ def gen_cases(rng, tier):
   out = []
   for i in range(n_cases):
     kind = PRICE_KINDS[i % 3]
-    sign = SIGNS[(i // 3) % 3]
+    sign = SIGNS[(i // 3) % 4]
     if i % 5 < 3:
       cls = LEAF_CLASSES[(i // 5) % len(LEAF_CLASSES)]
       L = tg.gen_tree_leaf(rng, cls, lg.pick(rng, lg.LENGTHS))
